@@ -60,6 +60,7 @@ pub fn pos_inputs(seed: u64) -> impl Iterator<Item = Value> {
     let mut out = Vec::new();
     // systematic: every separator before a field, pairs of separators
     for a in seps { out.push(json!({"doc": format!("{{{}f0 }}", a)})); }
+    for a in ["\u{1F600}", "\u{10000}", "\u{FFFF}", "\u{800}", "\u{7FF}", "\u{80}"] { out.push(json!({"doc": format!("{{ f0(x: \"{}\") f1 }}", a)})); }
     for a in seps { for b in seps { out.push(json!({"doc": format!("{{{}f0{}f1 {{ {}f2 }} }}", a, b, a)})); } }
     let mut r = Rng(seed);
     for _ in 0..400 {
@@ -69,7 +70,7 @@ pub fn pos_inputs(seed: u64) -> impl Iterator<Item = Value> {
             for _ in 0..(1 + r.below(3)) { d.push_str(*r.pick(&seps)); }
             if r.below(4) == 0 { d.push_str(&format!("a{}: ", i)); }
             d.push_str(&format!("f{}", i));
-            if r.below(3) == 0 { d.push_str(&format!("(x: \"s\u{e9}{}\")", *r.pick(&[" ", "\\n", "\\r"]))); }
+            if r.below(3) == 0 { d.push_str(&format!("(x: \"s\u{e9}{}\")", *r.pick(&[" ", "\\n", "\\r", "\u{1F600}", "\u{10FFFF}\u{FFFF}"]))); }
         }
         d.push_str(*r.pick(&seps)); d.push('}');
         out.push(json!({"doc": d}));
